@@ -419,10 +419,29 @@ def op_dup_offset(img, rng, limit):
     return f"dup_offset level={lv} box {b} records the offset of box {a}"
 
 
+def op_pad_fab_header(img, rng, limit):
+    """C20: blanks inserted into the header line of the FIRST FAB of a binary file (the validator reads that
+    line as it is and compares only later ones byte for byte); the recorded offsets of the boxes behind it move
+    along, so the directory stays consistent - with a header line of up to ~180 bytes"""
+    lv, d, lay = _cellh(img, rng, limit)
+    fn = rng.choice(sorted(d['files']))
+    c = d['files'][fn]
+    sites = _fab_sites(c)
+    if not sites or sites[0][0] != 0:
+        return None
+    k = rng.choice([1, 7, 30, 45, 64, 90])
+    d['files'][fn] = c[:3] + b' ' * k + c[3:]
+    for i in range(lay['n']):
+        ent = d['cellh'][lay['fod'][i]]
+        if ent[1] == fn.encode() and int(ent[2]) > 0:
+            ent[2] = str(int(ent[2]) + k).encode()
+    return f"pad_fab_header level={lv} file={fn} {k} blanks after 'FAB' in the first header of the file"
+
+
 C04_OPS = [op_delete_file, op_truncate, op_truncate, op_extend, op_insert, op_remove, op_alter_shape, op_alter_ncomp,
            op_shift_fab_indices, op_shift_cellh_indices, op_drop_index_line, op_drop_fab_line, op_garble_entry,
            op_bad_file_name, op_bad_offset, op_alter_cellh_ncomp, op_swap_offsets, op_dup_offset, op_dup_offset]
-C20_OPS = [op_nudge_offset, op_nudge_offset, op_edit_fab_text, op_header_whitespace]
+C20_OPS = [op_nudge_offset, op_nudge_offset, op_edit_fab_text, op_header_whitespace, op_pad_fab_header]
 
 
 def corrupt(img, rng, limit, ops, n=1):
